@@ -8,10 +8,9 @@ CONSTANTS
   DeadlineSource = "private"
   MarkMode = "release"
   MaxW = 2
-  LookupMode = "fresh"
+  LookupMode = "stale-after-validate"
   MaxConns = 2
-  Cases <- MCCases
+  Cases <- SessCases
 VIEW view
 INVARIANTS NoBytes NoEarlyClose KeepsReading MatchSound ConsumeExact FoundWhenComplete NeverDropsMatching MarkedUsed TableSound RegistryFree DeadlineUnpredictable
-PROPERTIES Recognised Terminates
 CHECK_DEADLOCK FALSE
